@@ -16,6 +16,15 @@ ConnWhy(cfg, got) == IF cfg.rcv # cfg.snd /\ got.rcv = cfg.snd /\ got.snd = cfg.
                      ELSE IF got.rcv # cfg.rcv /\ got.snd # cfg.snd THEN "both-wrong"
                      ELSE IF got.rcv # cfg.rcv THEN "rcv-wrong" ELSE "snd-wrong"
 
+\* What the kernel reports for a socket buffer of requested size `want` (0 = not configured: the
+\* operating-system default, not judged): Linux stores twice the requested value, clamped to the
+\* system maximum, so the read-back value lies between min(want, max) and twice that.
+SockOK(want, got, max) == want = 0 \/ LET eff == IF want > max THEN max ELSE want IN eff <= got /\ got <= 2 * eff
+SockWhy(cfg, got, rmax, wmax) ==
+    IF SockOK(cfg.snd, got.rcv, rmax) /\ SockOK(cfg.rcv, got.snd, wmax) /\ cfg.rcv # cfg.snd THEN "swapped"
+    ELSE IF ~SockOK(cfg.rcv, got.rcv, rmax) /\ ~SockOK(cfg.snd, got.snd, wmax) THEN "both-wrong"
+    ELSE IF ~SockOK(cfg.rcv, got.rcv, rmax) THEN "rcv-wrong" ELSE "snd-wrong"
+
 \* dispatched-port range of the topology file: "-" (empty) is 0..0, "all" is 1..65535
 TopoRange(kind, lo, hi) == IF kind = "empty" THEN <<0, 0>> ELSE IF kind = "all" THEN <<1, 65535>> ELSE <<lo, hi>>
 \* the router configuration may override either end (-1 = not overridden)
